@@ -101,10 +101,11 @@ func (r *ref) start(o *refOut) int {
 	if r.inflight < r.cap {
 		return vAdmit
 	}
-	if r.hoIn >= r.cap {
-		return vReject
-	}
-	return vEither
+	// "admits at most the configured number of concurrent calls": read strictly, as a bound on the
+	// calls in flight - also those admitted before the half-open period began and still running.
+	// (An earlier version of this monitor treated that zone as a don't-care and missed a seeded
+	// change that lets the caller performing the open->half-open transition skip the cap.)
+	return vReject
 }
 
 func (r *ref) admit() int32 {
